@@ -97,6 +97,11 @@ impl Ctx {
             self.samples.push(format!("{line} => {out}"));
         }
     }
+    /// Record the input that is about to run in `<out>/current_input.txt`, for properties whose violation can
+    /// kill the process (memory errors, stack overflow): if the harness dies, `./check` reports this input.
+    pub fn begin(&mut self, input: &str) {
+        let _ = std::fs::write(self.out_dir.join("current_input.txt"), input);
+    }
     /// Mark a case as non-trivial and distinct (by hash of a caller-chosen key).
     pub fn nontrivial(&mut self, key: &str) {
         use std::hash::{Hash, Hasher};
